@@ -586,6 +586,7 @@ def pick_subsets(rng: random.Random, fp: FilterProgram, n: int) -> List[Tuple[st
     if fp.focus:
         kinds.remove("focus")
         kinds.insert(0, "focus")
+    kinds.insert(rng.randint(0, 1), "nearmiss")
     for kind in kinds:
         if len(out) >= n:
             break
@@ -604,6 +605,16 @@ def pick_subsets(rng: random.Random, fp: FilterProgram, n: int) -> List[Tuple[st
                 continue
         elif kind == "single":
             names = [rng.choice(simple)]
+        elif kind == "nearmiss":
+            # a name that is NOT the bitproto name of any message but is close to one: re-cased, formatted for the target language, truncated
+            m = rng.choice(msgs)
+            var = [m.name.lower(), m.name.upper(), m.name[0].lower() + m.name[1:], m.name.swapcase(), fp.prefix + G.c_name(m), G.c_name(m),
+                   "_".join(G.scope_names(m)), m.name + "_", m.name[:-1], m.name + m.name[-1], "Encode" + m.name]
+            var = [v for v in var if v not in simple and re.fullmatch(r"[A-Za-z_][A-Za-z0-9_]*", v)]
+            if not var:
+                continue
+            others = [x for x in simple if x != m.name]
+            names = [rng.choice(var)] + rng.sample(others, min(len(others), rng.choice([0, 0, 1, 2])))
         elif kind == "nested":
             if not nested:
                 continue
